@@ -63,8 +63,12 @@ RULE = (
     "Gaussian refinement on synthetic spot images) + malformed stream (empty group, garbage cells, conflicting minimum "
     "durations, header-only file, out-of-range and negative nodes, same-frame merges, too small track width). "
     "Sub-pixel accuracy (5e-3 pixel) is asserted only for isolated spots (one track in the image, window >= 4 sigma, no "
-    "background, noise-free expectation image). Non-trivial: round trip re-imported >= 1 track; program: at least one operation changed the group or was refused; "
-    "refinement: a track with a gap or >= 2 tracks; %.6e: value with more than 7 significant digits."
+    "background, noise-free expectation image). Spots next to the first / last pixel of the scan line, whose window is "
+    "clipped by the image (centre 2.5 sigma .. window + 1.5 pixels from that pixel): small scope of 8 distances x both "
+    "edges x every overlap strategy x refine_missing_frames on/off x centroid with/without bias correction, plus a seeded "
+    "random stream; a lone such spot must be returned within 0.05 pixel (centroid: bound of the missing tail) / 0.25 "
+    "pixel (Gaussian: optimizer termination on a clipped window; worst seen on the unchanged library 0.09). Non-trivial: round trip re-imported >= 1 track; program: at least one operation changed the group or was refused; "
+    "refinement: a track with a gap or >= 2 tracks or a lone spot next to an image edge; %.6e: value with more than 7 significant digits."
 )
 TRUSTED = [
     "np.savetxt / np.loadtxt / %.18e: the text round trip of a double is exact (asserted at relative 1e-15 by the oracle); "
@@ -85,12 +89,24 @@ ASSUMPTIONS = [
     "integer); everywhere else int(c+0.5) is exact on the doubles the model receives",
     "mixed groups (some tracks with, some without a minimum duration) lose the column on export as the code documents "
     "with a warning; the oracle expects None for every re-imported track in that case",
+    "refinement next to an image edge: the true centre is asserted only for spots whose centre lies at least 2.5 sigma "
+    "inside the image; closer to the edge the Gaussian MLE of the unchanged library stops up to 0.4 pixel from the true "
+    "centre of a noise-free spot (L-BFGS-B default termination on a half-visible peak; with tight tolerances the same "
+    "code recovers the centre to 1e-9) - observed, not asserted",
 ]
 
 warnings.simplefilter("ignore")
 TOL_RT = 1e-15  # relative, round trip (the property's own number)
 TOL_EDIT = 1e-9  # relative to scale, interpolation / minimum durations
 TOL_SPOT = 5e-3  # pixels, refinement on noise-free spots
+# spots whose window is clipped by the first / last pixel of the scan line (centre >= 2.5 sigma inside the image):
+#  centroid: the tail beyond the edge pixel is missing from the sum; one-sided truncation of a Gaussian at a >= 2.5 sigma
+#            shifts its mean by sigma·phi(a)/Phi(a) <= 0.018 sigma <= 0.027 pixel for sigma <= 1.5 pixel
+#  Gaussian: the MLE of the noise-free expectation image is the true centre, but L-BFGS-B stops on its relative-reduction
+#            criterion and on a clipped window the amplitude / width / background valley is flat: worst seen on the
+#            unchanged library 0.09 pixel (about 1 point in 3000 above 0.02).  A quarter pixel still separates the true
+#            centre from any whole-pixel slip of the window bookkeeping.
+TOL_SPOT_EDGE = {"refine": 0.05, "gauss": 0.25}
 _TMP = tempfile.mkdtemp(prefix="verif_c17_")
 
 
@@ -724,6 +740,14 @@ def oracle_prog(case, ia):
     return None
 
 
+def spot_tol(case):
+    return TOL_SPOT_EDGE[case["kind"]] if case.get("edge") else TOL_SPOT
+
+
+def edge_note(case):
+    return f", spot next to the {'first' if case['edge'] == 'lo' else 'last'} pixel of the scan line" if case.get("edge") else ""
+
+
 def oracle_refine(case, ia):
     a, aux = split_aux(ia[0])
     if case.get("width_invalid"):
@@ -742,8 +766,8 @@ def oracle_refine(case, ia):
         for k, (s, r) in enumerate(zip(case["truth"], st)):
             truth = dict(zip(s["t"], s["c"]))
             for t, c in zip(r["t"], r["c"]):
-                if abs(c - truth[t]) > TOL_SPOT:
-                    return f"sub-pixel: centroid refinement of track {k} line {t}: {c!r}, true centre {truth[t]!r}"
+                if abs(c - truth[t]) > spot_tol(case):
+                    return f"sub-pixel: centroid refinement of track {k} line {t}: {c!r}, true centre {truth[t]!r} (tolerance {spot_tol(case)} pixel{edge_note(case)})"
     return None
 
 
@@ -771,8 +795,8 @@ def oracle_gauss(case, ia):
         if case.get("assert_truth"):
             truth = dict(zip(case["truth"][j]["t"], case["truth"][j]["c"]))
             for t, c in zip(r["t"], r["c"]):
-                if abs(c - truth[t]) > TOL_SPOT:
-                    return f"sub-pixel: Gaussian refinement line {t}: {c!r}, true centre {truth[t]!r}"
+                if abs(c - truth[t]) > spot_tol(case):
+                    return f"sub-pixel: Gaussian refinement line {t}: {c!r}, true centre {truth[t]!r} (tolerance {spot_tol(case)} pixel{edge_note(case)})"
         j += 1
     return None
 
@@ -793,7 +817,7 @@ def nontrivial(case, ia):
         st = aux.get("states", [])
         return any(x != y for x, y in zip(st, st[1:])) or "Error" in a
     if kind in ("refine", "gauss"):
-        return len(case["tracks"]) >= 2 or any(len(tr["t"]) < tr["t"][-1] - tr["t"][0] + 1 for tr in case["tracks"])
+        return bool(case.get("edge")) or len(case["tracks"]) >= 2 or any(len(tr["t"]) < tr["t"][-1] - tr["t"][0] + 1 for tr in case["tracks"])
     return False
 
 
@@ -1014,6 +1038,20 @@ def cases(tier, rng):
               0.125 * 7, 1 / 3, 2 / 3, 1e22, 1e-22, 5e-324 * 2**60]:
         yield {"stream": "small-scope", "kind": "fmt", "x": x}
 
+    # ---- small scope: one noise-free spot at a fixed distance from the first / last pixel, every strategy
+    n = 0
+    for side in ("lo", "hi"):
+        for dist in EDGE_DISTS:
+            for strategy in ("ignore", "simultaneous", "skip"):
+                for missing in (False, True):
+                    n += 1
+                    yield gen_edge_case(Rng(7000 + n), n, "gauss", side=side, dist=dist, sigma=1.2, stream="small-scope", n_pixels=24,
+                                        n_lines=6, ntr=1, cal="um", px_um=0.1, strategy=strategy, missing=missing)
+            for bias in (False, True):
+                n += 1
+                yield gen_edge_case(Rng(7000 + n), n, "refine", side=side, dist=dist, sigma=1.2, stream="small-scope", n_pixels=24,
+                                    n_lines=6, ntr=1, cal="um", px_um=0.1, bias=bias)
+
     # ---- random: round trips
     N = 400 if quick else 4000
     r = rng.fork("c17-rt")
@@ -1096,6 +1134,15 @@ def cases(tier, rng):
     for i in range(N):
         sub = r.fork(i)
         yield gen_refine_case(sub, i, "gauss")
+    # ---- random: spots next to the first / last pixel (window clipped by the image)
+    N = 30 if quick else 200
+    r = rng.fork("c17-refine-edge")
+    for i in range(N):
+        yield gen_edge_case(r.fork(i), i, "refine")
+    N = 40 if quick else 300
+    r = rng.fork("c17-gauss-edge")
+    for i in range(N):
+        yield gen_edge_case(r.fork(i), i, "gauss")
 
 
 def gen_refine_case(sub, i, kind):
@@ -1139,6 +1186,59 @@ def gen_refine_case(sub, i, kind):
     else:
         strategy = sub.choice(["skip", "skip", "ignore", "simultaneous"]) if close else sub.choice(["skip", "ignore", "simultaneous"])
         case.update({"window": hwid if not close else sub.randint(2, hwid), "missing": sub.chance(0.5), "strategy": strategy, "assert_truth": ntr == 1})
+    return case
+
+
+EDGE_DISTS = [3.0, 3.3, 3.75, 4.2, 4.6, 5.1, 5.5, 6.4]  # pixels, for sigma = 1.2 (window 5): clipped up to 5.x, just free at 6.4
+EDGE_MIN_SIGMAS = 2.5  # a spot near the image edge keeps its centre at least this many sigma inside the image
+
+
+def gen_edge_case(sub, i, kind, *, side=None, dist=None, sigma=None, stream="random", **fixed):
+    """one (or two) noise-free spot(s) whose fitting / summing window is CLIPPED by the first or last pixel of the scan
+    line: the centre stays between EDGE_MIN_SIGMAS·sigma and (window + 1.5) pixels from that pixel.  A second track, if
+    any, sits in the interior.  The true centre is asserted for a lone spot with the tolerances TOL_SPOT_EDGE."""
+    n_pixels = fixed.get("n_pixels") or sub.randint(30, 50)
+    n_lines = fixed.get("n_lines") or sub.randint(6, 14)
+    cal = fixed.get("cal") or sub.choice(["um", "um", "kbp", "pixel"])
+    k = {"route": "array", "cal": cal, "n_lines": n_lines, "n_pixels": n_pixels, "img": "spots",
+         "px_um": fixed.get("px_um") or sub.choice([0.1, 0.05, 0.08]), "lt": 0.125, "bg": 0.0}
+    if cal == "kbp":
+        k["kbp"] = 0.3 * n_pixels
+    sigma = sigma if sigma is not None else sub.uniform(1.0, 1.5)
+    hwid = int(math.ceil(4 * sigma))
+    side = side or sub.choice(["lo", "hi"])
+    dmin = EDGE_MIN_SIGMAS * sigma
+    wander = 0.0 if dist is not None else 0.6
+    d0 = dist if dist is not None else sub.uniform(dmin + wander, hwid + 1.5 - wander)  # hwid >= 4 sigma: never empty
+    ntr = fixed.get("ntr") or sub.choice([1, 1, 1, 2])
+    truth, tracks = [], []
+    for n in range(ntr):
+        if n == 0:
+            t0 = sub.randint(0, max(0, n_lines - 4))
+            t1 = sub.randint(min(n_lines - 1, t0 + 1), n_lines - 1)
+        else:
+            t0, t1 = 0, n_lines - 1
+        ts = list(range(t0, t1 + 1))
+        ds, d = [], d0
+        for _ in ts:
+            if n == 0:
+                d = min(d0 + wander, max(d0 - wander, d + sub.uniform(-0.5, 0.5))) if wander else d0
+            else:  # interior companion, far from the edge spot and from both edges
+                d = (n_pixels - 1) / 2 + 3 + sub.uniform(-0.3, 0.3)
+            ds.append(d)
+        cs = [x if side == "lo" else (n_pixels - 1) - x for x in ds]
+        truth.append({"t": ts, "c": cs, "amp": sub.uniform(200, 800), "sigma": sigma})
+        keep = [j for j in range(len(ts)) if j in (0, len(ts) - 1) or not sub.chance(0.35)]
+        tracks.append({"t": [ts[j] for j in keep],
+                       "c": [float(round(cs[j])) if sub.chance(0.7) else min(n_pixels - 1.0, max(0.0, cs[j] + sub.uniform(-0.4, 0.4))) for j in keep],
+                       "md": sub.choice([None, 0.0, 0.25]), "hw": sub.choice([None, 1])})
+    case = {"stream": stream, "kind": kind, "k": k, "tracks": tracks, "truth": truth, "subseed": i, "edge": side}
+    if kind == "refine":
+        px = {"um": k["px_um"], "kbp": 0.3, "pixel": 1.0}[cal]
+        case.update({"width": px * (2 * hwid + 1) * 0.999, "bias": fixed["bias"] if "bias" in fixed else sub.chance(0.7), "assert_truth": ntr == 1})
+    else:
+        case.update({"window": fixed.get("window") or hwid, "missing": fixed["missing"] if "missing" in fixed else sub.chance(0.5),
+                     "strategy": fixed.get("strategy") or sub.choice(["skip", "ignore", "simultaneous"]), "assert_truth": ntr == 1})
     return case
 
 
@@ -1234,6 +1334,7 @@ def fix_rect(case):
 
 def extra_coverage(results):
     kinds, errs, delims, sws, cals, sizes, nodes, opsk, mdk, routes = {}, {}, {}, {}, {}, {}, {}, {}, {}, {}
+    refk = {}
 
     def bump(d, key):
         d[str(key)] = d.get(str(key), 0) + 1
@@ -1272,6 +1373,13 @@ def extra_coverage(results):
                     bump(mdk, "representable")
                 else:
                     bump(mdk, "not-representable-with-6-decimals")
+        if c["kind"] in ("refine", "gauss"):
+            where = {"lo": "first-pixel-edge", "hi": "last-pixel-edge"}.get(c.get("edge"), "interior")
+            bump(refk, f"{c['kind']}:{where}:{'centre-asserted' if c.get('assert_truth') else 'lines-only'}")
+            if c["kind"] == "gauss" and c.get("edge") == "lo":
+                # the window start is clamped to pixel 0 exactly when int(coordinate) < window
+                clamped = any(int(x) < c["window"] for tr in c["tracks"][:1] for x in tr["c"])
+                bump(refk, "gauss:window-start-clamped" if clamped else "gauss:first-pixel-edge-unclamped")
         if c["kind"] == "prog":
             for op in c["ops"]:
                 bump(opsk, {"s": "split", "m": "merge", "f": "filter", "i": "interpolate", "r": "remove_in_rect"}[op[0]])
@@ -1279,7 +1387,7 @@ def extra_coverage(results):
         "case_kinds": kinds, "error_kinds": errs, "roundtrip_delimiters": delims, "roundtrip_sampling_widths": sws,
         "roundtrip_calibrations": cals, "roundtrip_kymo_routes": routes, "roundtrip_group_sizes": sizes,
         "roundtrip_longest_track": nodes, "roundtrip_single_row_files": single_row, "roundtrip_minimum_durations": mdk,
-        "program_ops": opsk, "dropped_for_margin": 0,
+        "program_ops": opsk, "refinement_spot_places": refk, "dropped_for_margin": 0,
         "margin_note": "no case is dropped: coordinates within 1e-6 of 0.5 are moved by 0.01 at generation, filter thresholds and "
                        "rectangle bounds are drawn with their margin, merges that would cross two tracks (non-increasing lines) are re-drawn",
         "exhaustive": False,
